@@ -753,7 +753,7 @@ def main():
             defaults["psi"] = text
             json.dump(defaults, open(DEFAULTS_PATH, "w"))
             print("wrote psi to " + DEFAULTS_PATH)
-    except (ParseError, OSError, ValueError, KeyError, IndexError) as ex:
+    except Exception as ex:  # anything unexpected in the source: fall back, never crash
         print("gen_psi: could not extract (recorded translation used; tie by correspondence only): section chain (%s)" % ex, file=sys.stderr)
         text = defaults.get("psi")
         if text is None:
